@@ -1570,6 +1570,8 @@ func TestC03(t *testing.T) {
 	// packets announced inside module-initiated EVM calls (c03_nested_test.go): a world of its own, not part of the op protocol
 	h.nestedSendScenario("fee")
 	h.nestedSendScenario("callback")
+	// conversions of the aggregate module for a programmable token (c03_aggregate_test.go)
+	h.aggregateConversionScenario()
 	for _, c := range corpusOps("C03") {
 		run(append([]string{"reset"}, c...))
 	}
